@@ -3,7 +3,7 @@ field of an accepted trace of each family and require the monitor to reject exac
 import json, os, shutil
 from . import common, schemafam
 
-C20_CFG = 'SPECIFICATION TraceSpec\nINVARIANTS Done\nCHECK_DEADLOCK FALSE\nCONSTANTS\n  RIds = {"r1", "r2", "r3", "r4", "r5"}\n  Msgs = {"m1", "m2", "m3", "m4", "m5", "m6"}\n  Nil = "nil"\n'
+C20_CFG = 'SPECIFICATION TraceSpec\nINVARIANTS Done\nCHECK_DEADLOCK FALSE\nCONSTANTS\n  RIds = {"r1", "r2", "r3", "r4", "r5"}\n  Msgs = {"m1", "m2", "m3", "m4", "m5", "m6", "b1", "b2", "b3", "b4", "b5", "b6", "b7", "b8", "b9", "b10", "b11", "b12", "b13", "b14", "b15", "b16", "b17", "b18", "b19", "b20"}\n  Nil = "nil"\n'
 
 
 def corrupt(chunk, pick, mutate):
